@@ -181,9 +181,10 @@ CLAIMS = {
                 'unescape routines invert the three escapings (C16_double_quoted_roundtrip, C16_single_quoted_roundtrip through the '
                 'byte state machine, C16_dot_roundtrip) and the escapings are injective (distinct keys never confused). the dot spelling $.k likewise for every non-empty key without control '
                 'characters (C16_dot_spelling_parses, C16_member_addressable_dot) and the three spellings agree on every object '
-                '(C16_spellings_agree). at EVERY DEPTH: a path of any number of name steps in any mixture of the three spellings (KeyDefs.chain_path) is '
-                'accepted, builds the chain of single-name steps and returns exactly the member reached through the nested objects, or '
-                'nothing when a name is missing on the way (C16_chain_parses, C16_member_addressable_at_depth, C16_absent_at_depth: induction '
+                '(C16_spellings_agree). EVERY NODE: a path of any number of name steps (any mixture of the three spellings) and index steps [digits] '
+                '(KeyDefs.chain_path) is accepted, builds the chain of single steps and returns exactly the value reached through the nested '
+                'objects and arrays, with that location in accessor mode, or nothing when a name or index is missing on the way; the decimal '
+                'spelling of n < 2^63 is an index step meaning n (C16_decimal_index_step) (C16_chain_parses, C16_member_addressable_at_depth, C16_absent_at_depth: induction '
                 'over the steps in the PEG derivation, the token replay, setNodeChain/setConnectedText and the specification). PARTIAL for: '
                 'names after `..`, in filter operands and in multi-name selectors, and the short escapes \\b \\t \\n \\f \\r. Tie: keys '
                 'from all Unicode planes, controls, escape-like sequences, near-miss siblings, 3 spellings x 5 path positions vs direct '
